@@ -45,6 +45,16 @@ CLAIMED['C09'] = dict(
     design='5/C09',
     note='Trusted: Lean kernel; ast.literal_eval/repr (assumptions LE/RE, checked on the alphabet). The tree list-form path and object identity are observed on the implementation only.',
     technique='Lean 4 proof (fold induction over the character machine) + differential correspondence')
+CLAIMED['C19'] = dict(
+    text='Lean 4 theorems (over exact rationals, any operands, any positive maximum): the number distance lies in [0, max] and is 0 only for equal numbers; the same for '
+         'datetimes, dates and timedeltas through the regenerated dispatch table; times are proved up to whole seconds (partial) with Lean negative witnesses for the '
+         'sub-second and datetime-vs-date cases. Correspondence: the real _get_numbers_distance against the exact model on ints, short decimals and Decimals. The '
+         'deep_distance clauses (range, 0 when equal, positive when the default diff is non-empty) are evaluated on the implementation over generated nested pairs inside '
+         'the stated domain; their model (delta view + DeepHash counts) is part of the diff-model work and is not yet a theorem.',
+    design='5/C19',
+    note='Trusted: Lean kernel + Mathlib order/field lemmas; IEEE rounding is outside the rational model (float findings F13c/F13d). deep_distance is partial: observed, not proved. '
+         'Known findings F13a, F13b, F17a, F17b, F24, F25.',
+    technique='Lean 4 proof (rational arithmetic) + differential correspondence; deep_distance by evaluation inside a stated domain')
 NA = {}
 
 checks = []
